@@ -258,7 +258,10 @@ func checkARAP(c arapCase, o *kit.Obs) error {
 	}
 	size := size3(in) + c.T.Norm()
 	tol := 1e-6 * size
-	if c.Mode == "translate" {
+	if c.Mode == "translate" && !c.Guess && !(c.Seq && c.Warm && len(c.Prev) > 0) {
+		// a translation is reproduced by the very first linear solve when the iteration starts from the library's
+		// own initial guess; from another starting point (DeformMap with a guess, warm starts) it is only reached
+		// to within the stopping rule, like a rotation
 		tol = 1e-9 * size
 	}
 	ids, err := matchFaces(out, want, tol, what)
